@@ -196,6 +196,46 @@ def check(P: Project, R: Report) -> None:
     elif envk is not None:
         env_src = ast.unparse(envk)
     R.ob("R3", "environment derives from the parameters' env", env_src is not None and env_src.startswith("self.server.env"), f"{f.module.rel}:{c.lineno}", f"env := {env_src}")
+    # the child's stderr: a pipe nobody reads fills up and stalls a talkative server before it reads `initialize`
+    R.rule("R6", "the child's stderr cannot stall it before the handshake: every value open_process can get for stderr is the null device or a stream the child writes to directly (inherited), or — for a pipe, which is also anyio's default — a task of its own in the client's task group reads it")
+    errk = kwarg(c, "stderr")
+    arms = []
+
+    def _arms(e, depth=0):
+        if isinstance(e, ast.IfExp):
+            _arms(e.body, depth)
+            _arms(e.orelse, depth)
+        elif isinstance(e, ast.Name) and depth < 3:
+            ds_ = [s_.value for s_ in walk_local(f.node) if isinstance(s_, ast.Assign) and any(isinstance(t, ast.Name) and t.id == e.id for t in s_.targets)]
+            if not ds_:
+                arms.append(e)
+            for d_ in ds_:
+                _arms(d_, depth + 1)
+        else:
+            arms.append(e)
+
+    if errk is None:
+        arms.append(ast.Attribute(value=ast.Name(id="subprocess", ctx=ast.Load()), attr="PIPE", ctx=ast.Load()))  # anyio.open_process defaults to a pipe
+    else:
+        _arms(errk)
+    piped = [a for a in arms if ast.unparse(a).split(".")[-1] == "PIPE" or (isinstance(a, ast.Constant) and a.value == -1)]
+    unknown = [a for a in arms if a not in piped and ast.unparse(a).split(".")[-1] not in ("DEVNULL", "stderr", "STDOUT", "__stderr__") and not (isinstance(a, ast.Constant) and a.value in (-3, -2, None, 2))]
+    if unknown:
+        raise AnalysisError(f"{f.module.rel}:{c.lineno}: open_process gets stderr=`{ast.unparse(unknown[0])[:60]}`, which this rule cannot classify")
+    drained = []
+    if piped:
+        from ..roles import self_closure
+
+        meths_ = P.methods(cl)
+        entries = [meths_[x.args[0].attr] for m_ in meths_.values() for x in walk_local(m_.node) if isinstance(x, ast.Call) and call_name(x).endswith(".start_soon") and x.args and isinstance(x.args[0], ast.Attribute) and x.args[0].attr in meths_]
+        for e_ in entries:
+            reads_out = any(isinstance(n_, ast.Attribute) and n_.attr == "stdout" for g_ in self_closure(P, cl, e_).values() for n_ in walk_local(g_.node))
+            reads_err = any(isinstance(n_, ast.Attribute) and n_.attr == "stderr" for n_ in walk_local(e_.node))
+            if reads_err and not reads_out:
+                drained.append(e_.name)
+    R.ob("R6", "no stderr pipe is left unread while the server starts", not piped or bool(drained), f"{f.module.rel}:{c.lineno}",
+         f"open_process can get stderr={sorted({ast.unparse(a) for a in piped})} ({'passed' if errk is not None else 'the default'}) and no task of the client's task group is dedicated to reading process.stderr: a server that logs more than the pipe holds before answering blocks in write(2) and never reaches the handshake",
+         sample=f"R6 open_process(stderr={ast.unparse(errk)[:60] if errk is not None else '<default PIPE>'}) arms {[ast.unparse(a) for a in arms]}" + (f" drained by {drained}" if drained else ""))
     init = P.func(A.MOD_STDIO, "StdioClient.__init__")
     sp = [p for p in init.positional_params() if p != "self"][0]
     store = [s for s in walk_local(init.node) if isinstance(s, ast.Assign) and ast.unparse(s.targets[0]) == "self.server"]
